@@ -1,5 +1,5 @@
 #!/usr/bin/env python3
-"""tools/seed_eval.py <worktree> <ID> [--tier quick|thorough] [--no-demo] [--suffix b]
+"""tools/seed_eval.py <worktree> <ID> [--tier quick|thorough] [--no-demo] [--suffix b] [--at <repo rev>]
 
 Evaluates one seeded defect produced by an independent sub-agent in <worktree>/_seed/<ID>/:
   1. applies patch.diff to a clean worktree, runs the unedited tests of every touched crate,
@@ -31,6 +31,9 @@ def main():
     sh('git checkout -- . ', cwd=wt)
     # evaluate against the current /repo HEAD (later fix commits included)
     head = subprocess.check_output(['git', '-C', '/repo', 'rev-parse', 'HEAD'], text=True).strip()
+    if '--at' in sys.argv:   # evaluate against an earlier /repo commit (a later fix: commit made the seeded change harmless)
+        head = subprocess.check_output(['git', '-C', '/repo', 'rev-parse', sys.argv[sys.argv.index('--at') + 1]], text=True).strip()
+        meta['evaluated_at_earlier_commit'] = True
     sh(f'git checkout -q --detach {head}', cwd=wt)
     meta['repo_head'] = head[:10]
     rc, out = sh(f'git apply --check {patch} && git apply {patch}', cwd=wt)
